@@ -197,6 +197,141 @@ def async_cases(ctx, h, info):
 
 
 # ---------------------------------------------------------------------------------------------------------------
+# (i') more mps_error call sites through the API (harness/c18_sites.c), one process per case
+def hx(s): return s.encode("latin1").hex()
+
+SIG_DROPS = "error-message:parsing-error-drops-message"
+SIG_DEGREE = "error-message:missing-argument:parser.c:Degree=%d"
+SIG_NULLTOK = "error-message:missing-argument:parser.c:raise-null-token"
+MSG_COEF = "Error parsing coefficients of the polynomial"
+
+
+def site_cases_list(ctx):
+    """[{site, argv, pieces, args, contains?, sig?}]: pieces/args describe the caller's format and arguments (the intended text is
+    their rendering); `contains` = text the caller passed to mps_raise_parsing_error, which must be retrievable too."""
+    rng = ctx.rng; out = []
+    def lit(s): return [("L", s)]
+    def case(site, argv, pieces, args=(), **kw):
+        d = {"site": site, "argv": argv, "pieces": pieces, "args": [str(a) for a in args]}; d.update(kw); out.append(d)
+    def word(n, alphabet="abcdefghijklmnopqrstuvwxyzQZ"): return "".join(rng.choice(alphabet) for _ in range(n))
+    head = "Monomial;\nDegree=%d;\n%s;\n%s;\n\n"
+    # option lines
+    for n in [3, 8, rng.randint(9, 40), rng.randint(41, 120), rng.randint(121, 200)]:
+        w = word(n)
+        case("parser.c:unrecognized-option=", ["str", hx("Monomial;\n%s=3;\nDegree=1;\n\n1 1\n" % w)], [("L", "Unrecognized option: "), ("A",)], [w])
+        w = word(n)
+        case("parser.c:unrecognized-option", ["str", hx("Monomial;\n%s;\nDegree=1;\n\n1 1\n" % w)], [("L", "Unrecognized option: "), ("A",)], [w])
+    case("parser.c:line-too-long", ["str", hx("Monomial;\n%s;\nDegree=1;\n\n1 1\n" % word(rng.randint(256, 400)))],
+         lit("Maximum line length exceeded (length > 255 while parsing)"))
+    for v in (0, -rng.randint(1, 10 ** 6)):
+        case("parser.c:degree-not-positive", ["str", hx("Monomial;\nDegree=%d;\nInteger;\n\n1 1\n" % v)], lit("Degree must be a positive integer"))
+    case("parser.c:precision-not-positive", ["str", hx("Monomial;\nDegree=1;\nPrecision=%d;\nFloatingPoint;\n\n1 1\n" % -rng.randint(0, 999))],
+         lit("Precision must be a positive integer"))
+    for kind in ("Integer", "Rational"):
+        case("parser.c:degree-missing", ["str", hx("Monomial;\n%s;\nReal;\n\n1 1\n" % kind)],
+             lit("Degree of the polynomial must be provided via the Degree=%d configuration option."), sig=SIG_DEGREE)
+    # coefficients: end of input (token == NULL: the caller's message alone) and malformed token (message + position)
+    for kind, cplx, good, bad in (("Integer", "Real", "12", "1x2"), ("Integer", "Complex", "7", "7%d"), ("Rational", "Real", "1/3", "q/2"),
+                                  ("Rational", "Complex", "2/5", "1/z%s"), ("FloatingPoint", "Real", "1.5", "1.5.5e"), ("FloatingPoint", "Complex", "2.5e3", "%n%n")):
+        d = rng.randint(2, 6); per = 2 if cplx == "Complex" else 1
+        have = rng.randint(0, (d + 1) * per - 1)
+        msg_eof = MSG_COEF
+        case("monomial-parser.c:coefficients-eof:%s-%s" % (kind, cplx), ["str", hx(head % (d, kind, cplx) + " ".join([good] * have) + "\n")], lit(msg_eof))
+        tok = bad + word(rng.choice([0, 0, 30, 150]))
+        nl = rng.randint(0, 3)
+        text = head % (d, kind, cplx) + "\n" * nl + " ".join([good] * have + [tok]) + "\n"
+        line = 6 + nl
+        want = {"Integer": MSG_COEF, "FloatingPoint": MSG_COEF}.get(kind)
+        if kind == "Rational": want = "Error parsing the %s of a coefficient" % ("denominator" if "/z" in tok else "numerator")
+        case("monomial-parser.c:coefficients-token:%s-%s" % (kind, cplx), ["str", hx(text)],
+             [("L", "Parsing error on line "), ("A",), ("L", " near the token: " + tok)], [line], contains=want, sig=SIG_DROPS)
+    # Chebyshev
+    case("chebyshev-parser.c:dense-eof", ["str", hx("Chebyshev;\nDegree=3;\nRational;\nReal;\n\n1/2 1/3\n")], lit("Error while reading the real part of coefficient"))
+    case("chebyshev-parser.c:dense-fp-eof", ["str", hx("Chebyshev;\nDegree=3;\nFloatingPoint;\nReal;\n\n1.5 2.5\n")], lit("Error while reading real part of coefficient"))
+    for _ in range(3):
+        d = rng.randint(2, 9); i = rng.randint(1, d)
+        body = "".join("%d 1/%d\n" % (j, j + 2) for j in range(i)) + "%d\n" % i
+        case("chebyshev-parser.c:sparse-eof", ["str", hx("Chebyshev;\nDegree=%d;\nRational;\nReal;\nSparse;\n\n%s" % (d, body))],
+             [("L", "Error while reading the real part of coefficient "), ("A",)], [d + 1], sig=SIG_NULLTOK)
+        # (the argument the caller passes is its variable i, which is n + 1 after the zeroing loop, not the degree just read)
+    case("chebyshev-parser.c:sparse-degree-token", ["str", hx("Chebyshev;\nDegree=3;\nRational;\nReal;\nSparse;\n\n0 1/2\nzz 1/3\n")],
+         [("L", "Parsing error on line "), ("A",), ("L", " near the token: zz")], [8], contains="Cannot parse the degree of the coefficient.", sig=SIG_DROPS)
+    # legacy (2.x) files
+    case("monomial-parser.c:legacy-data-type", ["str", hx("xri\n0\n2\n1\n2\n3\n")], lit("Found unsupported data_type in input file"))
+    case("monomial-parser.c:legacy-data-structure", ["str", hx("dxi\n0\n2\n1\n2\n3\n")], lit("Found unsupported data_structure in input file"))
+    case("monomial-parser.c:legacy-precision", ["str", hx("drf\nzz\n2\n1\n2\n3\n")], lit("Error while reading the input precision of the coefficients"))
+    case("monomial-parser.c:legacy-degree", ["str", hx("dri\n0\nzz\n1\n2\n3\n")], lit("Error reading the degree of the polynomial"))
+    case("tokenizer.l:yyerror", ["inline", hx("x^^2 + + 1")], lit("syntax error"))
+    # API calls
+    case("context.c:negative-degree", ["negdeg"], lit("Polynomial degree should be positive"))
+    case("monomial-poly.c:get-q-on-fp", ["getq"], lit("Cannot extract rational coefficients from a floating point polynomial"))
+    case("monomial-matrix-poly.c:d-on-rational", ["mpoly", "1"], lit("Cannot assign floating point coefficients to a non-floating-point polynomial."))
+    case("monomial-matrix-poly.c:q-out-of-bounds", ["mpoly", "2"], lit("Degree of the coefficient is out of bounds"))
+    case("monomial-matrix-poly.c:q-on-fp", ["mpoly", "3"], lit("Cannot assign exact coefficients to a floating point polynomial."))
+    case("input-output.c:nothing-to-copy", ["copyroots"], lit("Nothing to copy"))
+    # solver errors
+    quad = "Monomial;\nDegree=2;\n%s;\nReal;\n\n%s\n"
+    case("unisolve/main.c:resume", ["solve", hx(quad % ("Integer", "1 2 3")), "u", "-1", "1", "0"], lit("Resume not supported yet"))
+    case("unisolve/main.c:no-newton", ["solve", hx("Chebyshev;\nDegree=2;\nRational;\nReal;\n\n1/2 1/3 1/5\n"), "u", "-1", "0", "0"],
+         lit("The standard MPSolve algorithm is not available for this type of polynomial, please select the secular algorithm"))
+    case("unisolve/main.c:props-rational", ["solve", hx(quad % ("Rational", "1/2 1/3 1/5")), "u", "-1", "0", "1"],
+         lit("The real/imaginary option has not been yet implemented for rational input"))
+    case("unisolve/main.c:props-fp", ["solve", hx(quad % ("FloatingPoint", "1.5 2.5 3.5")), "u", "-1", "0", "1"],
+         lit("The input polynomial has neither integer nor rational coefficients: unable to perform real/imaginary options"))
+    case("secular-ga.c:max-packets", ["solve", hx("Secular;\nDegree=3;\nRational;\nReal;\n\n1/2 1/3\n2/3 5/2\n-1/4 7/2\n"), "s", "0", "0", "0"],
+         lit("Maximum number of iteration passed. Aborting."))
+    for _ in range(2):
+        d = rng.randint(2, 6); i = rng.randint(0, d - 1)
+        roots = "".join("(%de-1, 25e-2)\n" % (j + 1) for j in range(i)) + "zz\n"      # (GMP's mpf_inp_str reads up to the blank: 'Ne-1,' parses, 'N.5,' does not)
+        coeffs = " ".join(str(rng.randint(1, 9)) for _ in range(d + 1))
+        case("file-starting.c:bad-approximation", ["filestart", hx("Monomial;\nDegree=%d;\nInteger;\nReal;\n\n%s\n" % (d, coeffs)), hx(roots)],
+             [("L", "Error while trying to read the "), ("A",), ("L", "-th approximation. Aborting")], [i])
+    return out
+
+
+def site_phase(ctx, h, info):
+    cases = site_cases_list(ctx)
+    st = info["sites"]
+    def run1(c):
+        rc, out, err = vf.sh([h] + c["argv"], timeout=120, env=san_env(ctx))
+        return rc, out, err
+    with cf.ThreadPoolExecutor(max_workers=4) as ex:
+        results = list(ex.map(run1, cases))
+    # the extracted model of the repaired mps_error on the caller's format and arguments
+    lines = []
+    for c in cases:
+        lines.append("\t".join([("L" + p[1]) if p[0] == "L" else "A" for p in c["pieces"]] + ["|"] + c["args"] + ["|", "JUNK"]))
+    mo = ctx.run_model("ctx", "\n".join(lines) + "\n", args=["error", "fixed"]).split("\n")
+    for c, (rc, out, err), ml in zip(cases, results, mo):
+        it = iter(c["args"]); intended = "".join(p[1] if p[0] == "L" else next(it) for p in c["pieces"])
+        mm = re.match(r"flag=(\d) msg=(.*)\tintended=(.*)$", ml)
+        replay = {"kind": "site", "site": c["site"], "argv": c["argv"], "intended": intended, "contains": c.get("contains")}
+        st["cases"] += 1; st["by_site"][c["site"].split(":")[0]] += 1; st["distinct_sites"].add(c["site"])
+        if not mm or mm.group(2) != intended or mm.group(3) != intended:
+            ctx.violation("correspondence:mps_error-model:%s" % c["site"], "extracted model renders %r, python %r" % (ml[:120], intended[:120]), replay, no_input=True)
+        m = re.search(r"flag=(\d) len=(\d+) msg=(\S+)", out or "")
+        if rc != 0 or not m:
+            ctx.violation("error-message:crash:%s" % c["site"], "driving the call site ends abnormally rc=%d: %s" % (rc, (err or "")[-300:]), replay); continue
+        msg = "" if m.group(3) == "NULL" else bytes.fromhex(m.group(3)).decode("latin1")
+        if m.group(1) != "1":
+            ctx.violation("error-flag-not-set:%s" % c["site"], "operation failed but mps_context_has_errors is false", replay); continue
+        if "contains" in c:
+            # mps_raise_parsing_error with a token: position text as built by the code AND the caller's message
+            if msg != intended and c["contains"] not in msg:
+                ctx.violation("correspondence:mps_raise_parsing_error:%s" % c["site"], "retrievable text %r, expected position text %r" % (msg[:100], intended[:100]), replay, no_input=True)
+            if c["contains"] in msg: st["faithful"] += 1
+            else:
+                st["unfaithful"] += 1
+                ctx.violation(c["sig"], "mps_raise_parsing_error (parser.c) drops the message of its caller: retrievable %r does not contain %r (site %s)"
+                              % (msg[:90], c["contains"], c["site"]), replay)
+            continue
+        if msg == intended: st["faithful"] += 1; continue
+        st["unfaithful"] += 1
+        ctx.violation(c.get("sig") or "error-message:wrong:%s" % c["site"], "retrievable message %r is not the intended text %r (site %s)" % (msg[:100], intended[:100], c["site"]), replay)
+
+
+
+# ---------------------------------------------------------------------------------------------------------------
 # (iv) abort at every scheduling point under the deterministic scheduler
 WRAP = "-Wl," + ",".join("--wrap=" + f for f in (
     "vf_mutex_lock vf_mutex_unlock vf_mutex_trylock vf_cond_wait vf_cond_signal vf_cond_broadcast vf_create vf_join vf_yield "
@@ -557,13 +692,22 @@ def sched_phase(ctx, info):
 
 
 def run(ctx):
+    # findings recorded in this property's own fragment count as known also before the integrator has merged it
+    try:
+        frag = json.load(open(os.path.join(vf.VERIF, "known", "C18.json")))["findings"]
+        have = set(k.get("signature") for k in ctx.known)
+        ctx.known += [f for f in frag if f.get("signature") not in have and f.get("status", "open") == "open"]
+    except Exception:
+        pass
     ctx.prove()
     he = ctx.compile_harness(["c18_error.c"], "c18_error", mode="san")
     hr = ctx.compile_harness(["c15_reuse.c"], "c15_reuse", mode="san")
     ha = ctx.compile_harness(["c18_async.c"], "c18_async", mode="san")
+    hsites = ctx.compile_harness(["c18_sites.c"], "c18_sites", mode="san")
     info = {"error_cases": 0, "error_faithful": 0, "model_old_differs": 0, "error_lengths": {}, "sticky_cases": 0,
             "async_runs": 0, "abort_runs": 0, "abort_no_error": 0, "abort_error_flag": 0}
     C = collections.Counter
+    info["sites"] = collections.defaultdict(int, {"by_site": C(), "distinct_sites": set()})
     info["sched"] = collections.defaultdict(int, {"cases": {}, "by_algo": C(), "by_threads": C(), "by_mode": C(), "phase": C(),
                                                    "after_max": {"newton": 0, "packets": 0, "regens": 0, "points": 0}})
     if ctx.replay:
@@ -580,6 +724,14 @@ def run(ctx):
             sticky_cases(ctx, hr, info)
         elif k == "sched":
             sched_phase(ctx, info)
+        elif k == "site":
+            rc, out, err = vf.sh([hsites] + obj["argv"], timeout=120, env=san_env(ctx))
+            m = re.search(r"msg=([0-9a-f]+)", out or "")
+            got = bytes.fromhex(m.group(1)).decode("latin1") if m else None
+            bad = rc != 0 or (obj["contains"] not in (got or "") if obj.get("contains") else got != obj["intended"])
+            if bad:
+                ctx.violation(obj.get("signature", "error-message:replay"), "replay: message %r, intended %r%s, rc=%d"
+                              % (got, obj["intended"], (" containing %r" % obj["contains"]) if obj.get("contains") else "", rc), obj)
         else:
             async_cases(ctx, ha, info)
         return ctx.finish("proof", {"evaluations": 1, "distinct_nontrivial": 1, "rule": "replay", "samples": [str(obj)[:200]],
@@ -587,16 +739,19 @@ def run(ctx):
     base = [22, 27, 30, 31, 32, 33, 34, 40, 63, 64, 65, 100, 128, 200, 300]
     totals = sorted(set(base + [ctx.rng.randint(22, 330) for _ in range(ctx.pick(6, 120))] + (list(range(22, 70)) if not ctx.quick() else [])))
     error_cases(ctx, he, totals, info)
+    site_phase(ctx, hsites, info)
     sticky_cases(ctx, hr, info)
     async_cases(ctx, ha, info)
     sched_phase(ctx, info)
     ctx.proof_violation_if_broken(search=None)
     sc = json.loads(json.dumps(info["sched"]))
+    si = dict(info["sites"]); si["distinct_sites"] = sorted(si["distinct_sites"]); si["by_site"] = dict(si["by_site"])
     cov = {
-        "evaluations": info["error_cases"] + info["sticky_cases"] + info["async_runs"] + sc.get("runs", 0),
-        "distinct_nontrivial": info["error_cases"] + info["sticky_cases"] + info["abort_runs"] + sc.get("aborted_runs", 0),
+        "evaluations": info["error_cases"] + si.get("cases", 0) + info["sticky_cases"] + info["async_runs"] + sc.get("runs", 0),
+        "distinct_nontrivial": info["error_cases"] + si.get("cases", 0) + info["sticky_cases"] + info["abort_runs"] + sc.get("aborted_runs", 0),
         "rule": "error cases = (call site, message length, argument flavour) each in its own process and through the extracted model; sticky cases = (algorithm, polynomial, sync/async); abort runs = distinct injection delays (real threads) + distinct (case, threads, schedule, scheduling point of the abort request) under the deterministic scheduler",
         "scheduler_phase": sc,
+        "call_sites": si,
         "error_cases": info["error_cases"], "error_messages_faithful": info["error_faithful"],
         "error_length_histogram": info["error_lengths"],
         "sticky_cases": info["sticky_cases"], "async_runs": info["async_runs"], "abort_runs": info["abort_runs"],
